@@ -105,4 +105,4 @@ def prop(case):
     return Obs(masked and active, labels, checks=len(outs) * lanes)
 
 
-PARTS = [Part('diff', prop, strategy=cases, quick=(8, 250), thorough=(16, 3000))]
+PARTS = [Part('diff', prop, strategy=cases, quick=(8, 250), thorough=(16, 10000))]
